@@ -229,7 +229,15 @@ def perturbation(ck, cp, tier, seed):
                                 x2[:, j] = x2[:, j] * 0.5 + 0.1
                                 with torch.no_grad():
                                     y2 = fn(x2, ctx)[0]
-                                changed = [c for c in range(Fe) if not torch.equal(y2[:, c], y0[:, c])]
+                                # identity channels are compared bit for bit (no arithmetic touches them); transformed channels with a
+                                # tolerance of a few float32 ulps: when the perturbed element moves into or out of a spline's interval
+                                # the masked subset changes size, and vectorised transcendental kernels may round the SAME scalar
+                                # differently depending on its position in the vector (observed with the cubic inverse, 1 ulp)
+                                def same(c_):
+                                    if c_ in idf and not uncond:
+                                        return torch.equal(y2[:, c_], y0[:, c_])
+                                    return bool(((y2[:, c_] - y0[:, c_]).abs() <= 2e-5 * (1 + y0[:, c_].abs())).all())
+                                changed = [c for c in range(Fe) if not same(c)]
                                 if j in trf:
                                     bad = [c for c in changed if c != j]
                                 else:
@@ -240,7 +248,7 @@ def perturbation(ck, cp, tier, seed):
                                     x3[:, j, 0, 1] = x3[:, j, 0, 1] * 0.5 + 0.1
                                     with torch.no_grad():
                                         y3 = fn(x3, ctx)[0]
-                                    moved = (y3 != y0)
+                                    moved = (y3 - y0).abs() > 2e-5 * (1 + y0.abs())
                                     moved[:, j, 0, 1] = False
                                     if bool(moved.any()):
                                         bad = sorted({int(c) for c in torch.nonzero(moved)[:, 1]})
